@@ -323,6 +323,7 @@ class USD:
 
         # Empty the position queue
         self.position_queue = Queue()
+        self.ready = False
 
     def set_absolute_position(self, position):
         """Receives an absolute position to which the USD will have to move.
